@@ -543,6 +543,93 @@ def gen_C10(tier, seed):
     return {"reqs": reqs, "certs": [], "gen": g, "post": post}
 
 
+PACKED_VARIANTS = ["rk", "teddy", "slim128", "slim256", "fat", "default"]
+
+
+def packed_pats(g):
+    """packed stressors (DESIGN 4.3): shared fingerprints, many fingerprints, 1..128 patterns, minimum length 1..5"""
+    k = g.rng.choice(["few", "few", "samefp", "manyfp", "many33", "many65", "min1", "nested", "dups", "long"])
+    g.note("packed:" + k)
+    a = b"abcdefghijklmnop"
+    if k == "few":
+        return [g.word(a[:6], 1, 6) for _ in range(g.rng.randint(1, 8))]
+    if k == "samefp":
+        # equal low nybbles, different high nybbles: 0x61 'a' vs 0x41 'A' vs 0x31 '1' vs 0x71 'q'
+        base = g.word(b"abc", 2, 4)
+        out = [base]
+        for _ in range(g.rng.randint(1, 6)):
+            out.append(bytes((b & 0x0F) | g.rng.choice([0x30, 0x40, 0x60, 0x70]) for b in base) + g.word(b"ab", 0, 2))
+        return out
+    if k == "manyfp":
+        n = g.rng.choice([9, 17, 20, 30])
+        return [bytes([a[i % 16], a[(i * 7 + 3) % 16]]) + g.word(a[:4], 0, 3) for i in range(n)]
+    if k == "many33":
+        return [bytes([97 + i % 26, 97 + (i // 26)]) + g.word(a[:4], 0, 3) for i in range(g.rng.randint(33, 64))]
+    if k == "many65":
+        return [bytes([97 + i % 26, 97 + (i // 26)]) + g.word(a[:4], 0, 2) for i in range(g.rng.randint(65, 128))]
+    if k == "min1":
+        return [g.word(a[:5], 1, 1)] + [g.word(a[:5], 1, 5) for _ in range(g.rng.randint(0, 10))]
+    if k == "nested":
+        w = g.word(a[:3], 4, 8)
+        ps = [w[:i] for i in range(1, len(w) + 1)] + [w[i:] for i in range(1, len(w))]
+        g.rng.shuffle(ps)
+        return ps[: g.rng.randint(2, len(ps))]
+    if k == "dups":
+        w = [g.word(a[:3], 1, 4) for _ in range(3)]
+        return [g.rng.choice(w) for _ in range(g.rng.randint(2, 7))]
+    return [g.word(a[:4], 5, 40) for _ in range(g.rng.randint(1, 5))]
+
+
+def packed_hay(g, pats):
+    """every match offset modulo the vector width, lengths around 16/32/48(+N-1), matches straddling windows
+    and in the final partial window, decoy prefixes"""
+    n = g.rng.choice([0, 1, 5, 14, 15, 16, 17, 18, 19, 20, 30, 31, 32, 33, 34, 35, 36, 47, 48, 49, 50, 64, 67, 70, 100])
+    alpha, foreign = g.alphabet(pats)
+    fill = bytes([foreign]) if g.rng.random() < 0.5 else bytes([g.rng.choice(alpha)])
+    out = bytearray(fill * n)
+    for _ in range(g.rng.randint(0, 3)):
+        p = g.rng.choice(pats)
+        if g.rng.random() < 0.3 and len(p) > 1:
+            p = p[: g.rng.randint(1, len(p) - 1)]
+        if len(out) >= len(p):
+            pos = g.rng.choice([0, len(out) - len(p), g.rng.randint(0, len(out) - len(p))])
+            out[pos:pos + len(p)] = p
+    return bytes(out)
+
+
+def gen_C06(tier, seed):
+    g = Gen(seed)
+    q = tier == "quick"
+    reqs = []
+    for _ in range(400 if q else 6000):
+        pats = packed_pats(g)
+        mk = g.rng.choice(["lf", "ll"])
+        nolim = 1 if (len(pats) > 64 or g.rng.random() < 0.2) else 0
+        for _ in range(2):
+            hay = packed_hay(g, pats)
+            kv = {"mk": mk, "pats": hxlist(pats), "hay": hx(hay)}
+            api = g.rng.choice(["find", "find", "find", "iter"])
+            kv["api"] = api
+            if api == "find":
+                s, e = g.span(len(hay))
+                if s <= e:
+                    kv["s"] = s; kv["e"] = e
+            if nolim:
+                kv["nolimits"] = 1
+            kv["pcfg"] = ";".join(PACKED_VARIANTS)
+            reqs.append(fmt_req("packed", kv))
+    # systematic: one match at every offset of haystacks of every length 0..70, all variants
+    for n in (list(range(0, 40)) if q else list(range(0, 71))):
+        for pats in ([b"abcd", b"bc"], [b"a"], [b"ab", b"abc", b"abcde"]):
+            pos = g.rng.randint(0, max(0, n - 2))
+            hay = bytearray(b"x" * n)
+            hay[pos:pos + len(pats[0])] = pats[0][: max(0, n - pos)]
+            reqs.append(fmt_req("packed", {"mk": g.rng.choice(["lf", "ll"]), "pats": hxlist(pats), "hay": hx(bytes(hay)),
+                                           "api": "find", "pcfg": ";".join(PACKED_VARIANTS)}))
+    reqs.append(fmt_req("packed", {"mk": "lf", "pats": hxlist([b"ab", b""]), "hay": hx(b"xab"), "pcfg": "default;rk"}))
+    return {"reqs": reqs, "certs": [], "gen": g, "needs_cpu": True}
+
+
 TOP_APIS = ["is_match", "find", "find_overlapping", "find_iter", "find_overlapping_iter", "replace_all",
             "replace_all_bytes", "replace_all_with", "replace_all_with_bytes", "stream_find_iter",
             "try_find", "try_find_overlapping", "try_find_iter", "try_find_overlapping_iter", "try_replace_all",
@@ -584,5 +671,5 @@ def gen_C13(tier, seed):
     return {"reqs": reqs, "certs": [], "gen": g, "exhaustive": True}
 
 
-GENS = {"C13": gen_C13, "C05": gen_C05, "C10": gen_C10, "C07": gen_C07, "C08": gen_C08, "C18": gen_C18, "C12": gen_C12, "C01": gen_C01, "C02": gen_C02, "C03": gen_C03, "C04": gen_C04, "C09": gen_C09,
+GENS = {"C13": gen_C13, "C06": gen_C06, "C05": gen_C05, "C10": gen_C10, "C07": gen_C07, "C08": gen_C08, "C18": gen_C18, "C12": gen_C12, "C01": gen_C01, "C02": gen_C02, "C03": gen_C03, "C04": gen_C04, "C09": gen_C09,
         "C11": gen_C11, "C14": gen_C14, "C16": gen_C16}
